@@ -184,7 +184,11 @@ static void exec(Pool &P, const json &c, json &ev) {
       onSplines(P.at(c, "dst"), P.at(c, "src"), [&](auto &d, auto &s) {
         constexpr size_t od = std::decay_t<decltype(d)>::spline_order, os = std::decay_t<decltype(s)>::spline_order;
         if constexpr (os <= od && os <= 3) {
-          if (op == "AddAssign") d += s;
+          // rv = 1: the source is handed over as an rvalue (d += std::move(s))
+          if (c.value("rv", 0) == 1) {
+            if (op == "AddAssign") d += std::move(s);
+            else d -= std::move(s);
+          } else if (op == "AddAssign") d += s;
           else d -= s;
         } else throw std::runtime_error("harness: += orders");
       });
@@ -198,38 +202,64 @@ static void exec(Pool &P, const json &c, json &ev) {
       onSplines(P.at(c, "a"), P.at(c, "b"), [&](auto &a, auto &b) {
         constexpr size_t oa = std::decay_t<decltype(a)>::spline_order, ob = std::decay_t<decltype(b)>::spline_order;
         if constexpr (oa <= 3 && ob <= 3) {
-          const auto &ca = a;
-          const auto &cb = b;
-          if (op == "Add") P.put<Spline<T, std::max(oa, ob)>>(c, ca + cb);
-          else if (op == "Sub") P.put<Spline<T, std::max(oa, ob)>>(c, ca - cb);
-          else P.put<Spline<T, oa + ob>>(c, ca * cb);
+          // rv = 0: named (non-const) operands; rv = 1 / 2: the left / right operand as an rvalue
+          const int rv = c.value("rv", 0);
+          using R = Spline<T, std::max(oa, ob)>;
+          if (rv == 1) {
+            if (op == "Add") P.put<R>(c, std::move(a) + b);
+            else if (op == "Sub") P.put<R>(c, std::move(a) - b);
+            else P.put<Spline<T, oa + ob>>(c, std::move(a) * b);
+          } else if (rv == 2) {
+            if (op == "Add") P.put<R>(c, a + std::move(b));
+            else if (op == "Sub") P.put<R>(c, a - std::move(b));
+            else P.put<Spline<T, oa + ob>>(c, a * std::move(b));
+          } else {
+            if (op == "Add") P.put<R>(c, a + b);
+            else if (op == "Sub") P.put<R>(c, a - b);
+            else P.put<Spline<T, oa + ob>>(c, a * b);
+          }
         } else throw std::runtime_error("harness: binary op orders");
       });
     } else if (op == "Scale" || op == "Neg") {
       onSpline(P.at(c, "a"), [&](auto &a) {
         using X = std::decay_t<decltype(a)>;
-        const X &ca = a;
-        if (op == "Neg") P.put<X>(c, -ca);
-        else P.put<X>(c, ca * Codec<T>::dec(c.at("kk")));
+        const int rv = c.value("rv", 0);
+        if (op == "Neg") {
+          if (rv == 1) P.put<X>(c, -std::move(a));
+          else P.put<X>(c, -a);
+        } else {
+          const T k = Codec<T>::dec(c.at("kk"));
+          if (rv == 1) P.put<X>(c, std::move(a) * k);
+          else if (rv == 2) P.put<X>(c, k * std::move(a));
+          else if (rv == 3) P.put<X>(c, std::move(a) / (static_cast<T>(1) / k));
+          else P.put<X>(c, a * k);
+        }
       });
     } else if (op == "Apply") {
       const std::string w = c.at("which").get<std::string>();
       onSpline(P.at(c, "a"), [&](auto &a) {
         constexpr size_t oa = std::decay_t<decltype(a)>::spline_order;
-        const auto &ca = a;
         using namespace bspline::operators;
-        if (w == "Id") P.put<Spline<T, oa>>(c, IdentityOperator{} * ca);
-        else if (w == "Dx1") P.put<Spline<T, (oa > 1 ? oa - 1 : 0)>>(c, Dx<1>{} * ca);
-        else if (w == "Dx2") P.put<Spline<T, (oa > 2 ? oa - 2 : 0)>>(c, Dx<2>{} * ca);
+        const bool rv = c.value("rv", 0) == 1;  // the operand as an rvalue
+        if (w == "Id") P.put<Spline<T, oa>>(c, rv ? IdentityOperator{} * std::move(a) : IdentityOperator{} * a);
+        else if (w == "Dx1") P.put<Spline<T, (oa > 1 ? oa - 1 : 0)>>(c, rv ? Dx<1>{} * std::move(a) : Dx<1>{} * a);
+        else if (w == "Dx2") P.put<Spline<T, (oa > 2 ? oa - 2 : 0)>>(c, rv ? Dx<2>{} * std::move(a) : Dx<2>{} * a);
         else if (w == "X1") {
-          if constexpr (oa + 1 <= PMAX) P.put<Spline<T, oa + 1>>(c, X<1>{} * ca);
+          if constexpr (oa + 1 <= PMAX) P.put<Spline<T, oa + 1>>(c, rv ? X<1>{} * std::move(a) : X<1>{} * a);
           else throw std::runtime_error("harness: order too large");
         } else throw std::runtime_error("harness: unknown operator");
       });
     } else if (op == "Union" || op == "Inter") {
-      const Support<T> &a = std::get<Support<T>>(P.at(c, "a"));
-      const Support<T> &b = std::get<Support<T>>(P.at(c, "b"));
-      if (op == "Union") P.put<Support<T>>(c, a.calcUnion(b));
+      Support<T> &a = std::get<Support<T>>(P.at(c, "a"));
+      Support<T> &b = std::get<Support<T>>(P.at(c, "b"));
+      const int rv = c.value("rv", 0);
+      if (rv == 1) {
+        if (op == "Union") P.put<Support<T>>(c, std::move(a).calcUnion(b));
+        else P.put<Support<T>>(c, std::move(a).calcIntersection(b));
+      } else if (rv == 2) {
+        if (op == "Union") P.put<Support<T>>(c, a.calcUnion(std::move(b)));
+        else P.put<Support<T>>(c, a.calcIntersection(std::move(b)));
+      } else if (op == "Union") P.put<Support<T>>(c, a.calcUnion(b));
       else P.put<Support<T>>(c, a.calcIntersection(b));
     } else if (op == "GetSupport") {
       onSpline(P.at(c, "src"), [&](auto &s) { P.put<Support<T>>(c, s.getSupport()); });
